@@ -631,6 +631,150 @@ def replay_scrypt(block_size, parallelism, rounds):
     return False
 
 
+# ------------------------------------------------------------------ every setting of every hasher: original untouched, derived hashers isolated
+def _setting_values(H):
+    """one or two admissible values per setting keyword of this hasher"""
+    base = getattr(H, "wrapped", H)
+    out = {}
+    sk = set(getattr(H, "setting_kwds", ()))
+    if "rounds" in sk:
+        mn = max(getattr(base, "min_rounds", 1), 1)
+        mx = getattr(base, "max_rounds", None) or mn + 2000
+        mid = min(mx, mn + 3)
+        if base.name == "bsdi_crypt":
+            mid |= 1
+        out["rounds"] = [mid]
+        out["default_rounds"] = [mid]
+        out["min_rounds"] = [mn]
+        out["max_rounds"] = [mx]
+        out["vary_rounds"] = [0, 1]
+    if "salt_size" in sk and getattr(base, "min_salt_size", None) != getattr(base, "max_salt_size", None):
+        out["salt_size"] = [getattr(base, "min_salt_size", 0) or 1]
+    if "ident" in sk:
+        out["ident"] = list(getattr(base, "ident_values", ()) or ())[:4]
+        out["default_ident"] = out["ident"][:2]
+    if "truncate_error" in sk:
+        out["truncate_error"] = [True, False]
+    if "variant" in sk:
+        out["variant"] = [0, 3, "sha512", "sha1"] if base.name == "fshp" else []
+    if "block_size" in sk:
+        out["block_size"] = [4]
+    if "parallelism" in sk:
+        out["parallelism"] = [2]
+    if "algs" in sk:
+        out["algs"] = ["sha-1,sha-256"]
+        out["default_algs"] = ["sha-1,md5"]
+    if "version" in sk:
+        out["version"] = [1, 2]
+    out["relaxed"] = [True]
+    return dict((k, v) for k, v in out.items() if v)
+
+
+def _behaviour(H, n=3):
+    """what a hasher does that its settings determine: the shape of fresh hashes (prefix up to the salt), the cost range asked
+    of the random source, salt size, ident, variant"""
+    import random
+    base = getattr(H, "wrapped", H)
+    out = []
+    asks = []
+
+    class Rec(random.Random):
+        def randint(self, a, b):
+            asks.append((a, b))
+            return a
+    for a in ("default_rounds", "min_desired_rounds", "max_desired_rounds", "vary_rounds", "default_salt_size", "default_ident",
+              "default_variant", "truncate_error", "default_algs", "block_size", "parallelism", "version"):
+        out.append((a, getattr(base, a, None)))
+    if hasattr(base, "_generate_rounds"):
+        import passlib.utils.handlers as uh
+        old = uh.rng
+        uh.rng = Rec(1)
+        try:
+            for _ in range(n):
+                try:
+                    base._generate_rounds()
+                except Exception as e:
+                    asks.append(("raises", type(e).__name__))
+        finally:
+            uh.rng = old
+    out.append(("rounds asked of the rng", tuple(asks)))
+    return out
+
+
+def replay_isolation(name):
+    import warnings
+    from passlib import registry
+    warnings.simplefilter("ignore")
+    H = registry.get_crypt_handler(name)
+    vals = _setting_values(H)
+    before_attrs = _behaviour(H)
+    snap = _snapshot(H)
+    for kw, vs in sorted(vals.items()):
+        for v in vs:
+            try:
+                D = H.using(**{kw: v})
+            except Exception:
+                continue
+            try:
+                _behaviour(D)              # use the derived hasher
+            except Exception:
+                pass
+            ch = _snap_changed(snap)
+            if ch:
+                return "%s.using(%s=%r): the original hasher changed (%s)" % (name, kw, v, ch)
+            if _behaviour(H) != before_attrs:
+                return "%s.using(%s=%r): the original hasher now behaves differently" % (name, kw, v)
+    # derived-from-derived: a child must behave the same whether or not its parent was used first, and the parent the same
+    # whether or not the child exists / was used
+    if "rounds" in getattr(H, "setting_kwds", ()):
+        base = getattr(H, "wrapped", H)
+        mn = max(getattr(base, "min_rounds", 1), 1)
+        mx = getattr(base, "max_rounds", None) or mn + 4000
+        d = min(mx, mn + 200)
+        if base.name == "bsdi_crypt":
+            d |= 1
+
+        span = max(1, min(d - mn, mx - d) // 4)
+        for child_kw in (dict(vary_rounds=0.1), dict(min_rounds=d - span, max_rounds=d + span), dict(rounds=d), dict(salt_size=None)):
+            if "salt_size" in child_kw:
+                if "salt_size" not in H.setting_kwds:
+                    continue
+                child_kw = dict(salt_size=getattr(base, "min_salt_size", 0) or 1)
+
+            def mk():
+                P = H.using(default_rounds=d, min_rounds=mn, max_rounds=mx, vary_rounds=0.5)
+                try:
+                    C = P.using(**child_kw)
+                except Exception:
+                    C = None
+                return P, C
+            P0, C0 = mk()
+            if C0 is None:
+                continue
+            child_alone = _behaviour(C0)
+            P1, C1 = mk()
+            parent_alone = _behaviour(P1)
+            P2, C2 = mk()
+            _behaviour(P2)
+            if _behaviour(C2) != child_alone:
+                return "%s: the hasher derived with %r behaves differently after its parent has been used (cost range %r vs %r)" % (
+                    name, child_kw, _behaviour(C2)[-1], child_alone[-1])
+            P3, C3 = mk()
+            _behaviour(C3)
+            if _behaviour(P3) != parent_alone:
+                return "%s: a hasher behaves differently after the hasher derived from it with %r has been used (cost range %r vs %r)" % (
+                    name, child_kw, _behaviour(P3)[-1], parent_alone[-1])
+    return False
+
+
+def ob_isolation(name):
+    r = replay_isolation(name)
+    if r:
+        return violation("using(): %s" % r, "using:isolation:%s" % name, {"module": "harness.c09", "func": "replay_isolation", "args": {"name": name}})
+    return ok("%s: every setting keyword leaves the original hasher's class state and behaviour untouched; parent and derived "
+              "hashers do not influence each other in either order of use" % name, paths=1, verdict="finite-enumeration", nontrivial=False)
+
+
 def run(tier, seed, t0, only=None):
     import sys
     sys.path.insert(0, runner.REPO)
@@ -663,6 +807,9 @@ def run(tier, seed, t0, only=None):
             continue
         if getattr(getattr(h, "wrapped", h), "ident_values", None):
             obs.append(Ob("ident-chain[%s]" % n, ob_ident_chain, {"name": n}, timeout=300))
+    from harness import c08 as _c08
+    for n in _c08.handler_names():
+        obs.append(Ob("isolation[%s]" % n, ob_isolation, {"name": n}, timeout=300))
     if only:
         obs = [o for o in obs if only in o.name]
     results = runner.run_obligations(obs)
